@@ -18,6 +18,8 @@ VENV = [val(3, ["a"]), val(3, ["a"], 5), val(1, ["a", "b"]), val(2, ["a"], 5)]
 VOPT = [val(3, ["a"]), val(2, ["a", "b"]), val(0, [], none=True), val(1, ["b"])]
 # an EnvFilter edited IN PLACE (Handle::modify + add_directive): only the level of the span-scoped directive changes
 VMOD = [val(2, ["a"], 3), val(2, ["a"], 5), val(2, ["a"], 1), val(2, ["a"], 4)]
+# ... starting from a filter WITHOUT any span-scoped directive: the first edit adds the first dynamic directive
+VMOD0 = [val(2, ["a"], 0), val(2, ["a"], 5), val(2, ["a"], 1), val(2, ["a"], 4)]
 CS = [{"lvl": 3, "tgt": "a"}, {"lvl": 5, "tgt": "b"}, {"lvl": 1, "tgt": "b"}, {"lvl": 4, "tgt": "a"}, {"lvl": 2, "tgt": "a"}]
 hit = lambda c, k="event", inspan=False: {"op": "hit", "c": c, "k": k, "inspan": inspan}
 rl = lambda v: {"op": "reload", "v": v}
@@ -26,7 +28,7 @@ rl = lambda v: {"op": "reload", "v": v}
 def scenarios(rng, n):
     out = []
     for i in range(n):
-        kind = rng.choice(["global", "perlayer", "env", "optglobal", "envmod"])
+        kind = rng.choice(["global", "perlayer", "env", "optglobal", "envmod", "envmod0", "envplf"])
         nth = rng.choice([2, 2, 3])
         threads = []
         reloads = [1, 2] if rng.random() < 0.7 else [rng.choice([1, 2, 3])]
@@ -37,7 +39,7 @@ def scenarios(rng, n):
         threads.append(t1)
         for _ in range(nth - 1):
             threads.append([hit(rng.choice(CS), rng.choice(["event", "event", "span"])) for _ in range(rng.choice([3, 4, 5]))])
-        if kind == "envmod":
+        if kind in ("envmod", "envmod0"):
             for o in t1:
                 if o["op"] == "reload":
                     o["how"] = "modify_add"
@@ -47,12 +49,13 @@ def scenarios(rng, n):
             for o in t1:
                 if o["op"] == "reload":
                     o["how"] = "modify_set"
-        if kind in ("env", "envmod"):   # emissions inside a span `w` that a span-scoped directive of the new value may enable
+        if kind in ("env", "envmod", "envmod0", "envplf"):   # emissions inside a span `w` that a span-scoped directive of the new value may enable
             for th in threads:
                 for o in th:
                     if o["op"] == "hit" and rng.random() < 0.5:
                         o["inspan"], o["k"] = True, "event"
-        out.append({"name": "R-%s-%d" % (kind, i), "collectors": {}, "reload": {"kind": "env" if kind == "envmod" else kind, "values": VENV if kind == "env" else VMOD if kind == "envmod" else VOPT if kind == "optglobal" else V}, "threads": threads})
+        out.append({"name": "R-%s-%d" % (kind, i), "collectors": {}, "reload": {"kind": "env" if kind in ("envmod", "envmod0") else kind,
+                               "values": VENV if kind in ("env", "envplf") else VMOD if kind == "envmod" else VMOD0 if kind == "envmod0" else VOPT if kind == "optglobal" else V}, "threads": threads})
     return out
 
 
